@@ -1,16 +1,18 @@
 import Model.Gencommon
 import Lemmas.GencommonMerge
 import Lemmas.GencommonRefs
+import Lemmas.GencommonBind
 /-!
 # C19 — gencommon: the interface rendered from FindInterface compiles and fits
 
 (a) parameter naming, (b) embedded-method merge, (c) type references — each proved for ALL
 signatures / embedding trees of any depth / type terms (helper lemmas in `Lemmas/GencommonMerge`
-and `Lemmas/GencommonRefs`).  The clause "the rendered file is accepted by the Go compiler and
+`Lemmas/GencommonRefs` and `Lemmas/GencommonBind`).  The clause "the rendered file is accepted by the Go compiler and
 implemented by the original type" is observed by the correspondence run (`go build`), not proved
 here; what is proved towards it: names distinct and valid, method names distinct, every rendered
 method promoted by Go's selector rule, every rendered type reference denoting the identical type
-under the active imports.
+under the active imports, and the import declaration printed for every active import binding the
+qualifier the references use (whatever explicit names the target file gives its imports).
 -/
 namespace Gencommon
 
@@ -873,5 +875,120 @@ example :
                   true, [([], .basic ['e', 'r', 'r', 'o', 'r'])]⟩)]
         [.mk (.named pSib sib ['E'] []) [(['G', 'e', 't'], ⟨[], false, [([], .named pDeep ['d', 'e', 'e', 'p'] tT [])]⟩)] []])).1 := by
   unfold DistinctAliases; decide
+
+/-! ### the printed import block binds the qualifiers the references use
+
+`denote` reads a qualifier against the `Alias` fields of the active entries.  What the rendered file
+contains is `ImportString()` of each entry: an import declaration with or without an explicit
+name, and a declaration without one binds the name in the imported package's PACKAGE CLAUSE
+(`decl path`), not the last element of its path.  `Binds decl ih` (`Lemmas/GencommonBind.lean`) says
+that for every entry the printed declaration binds exactly `Alias`. -/
+
+/-- `ImportString()` is the text of the declaration `importSpec`: the explicit name is printed
+exactly when `aliasIsPackageName` is false -/
+theorem importString_prints_spec (i : ImportDesc) : i.importString = printSpec i.importSpec := by
+  unfold ImportDesc.importString ImportDesc.importSpec printSpec
+  split <;> rfl
+
+/-- **an explicit import name is always echoed.** Whatever name the target file gives an import -
+equal to the last path element (`v2 "m/pkg/v2"`), to the package's declared name, or to neither -
+`calcImports` records it as the alias and `ImportString()` prints it in front of the path. -/
+theorem explicit_name_printed (cur : Name) (pin : List (Name × Name))
+    (specs : List (Name × Option Name)) (path a : Name) (h : (path, some a) ∈ specs) :
+    ∃ i ∈ (calcImports cur pin specs).imports, i.alias = a ∧ i.path = path ∧
+      i.importString = a ++ " \"".toList ++ path ++ "\"".toList := by
+  refine ⟨⟨a, path, false, false⟩, ?_, rfl, rfl, ?_⟩
+  · simp only [calcImports]
+    exact List.mem_map.2 ⟨(path, some a), h, rfl⟩
+  · simp [ImportDesc.importString]
+
+/-- **calcImports_binds_alias.** For EVERY import block of a type-checked file (`PInfo.Imports`
+resolves every import to its declared name; explicit names arbitrary - in particular equal to the
+directory name of a package whose package clause says something else): the declaration printed
+for each entry binds the entry's alias. -/
+theorem calcImports_binds_alias (decl : Name → Name) (cur : Name) (pin : List (Name × Name))
+    (specs : List (Name × Option Name)) (hP : ∀ e ∈ pin, e.2 = decl e.1)
+    (hAll : ∀ s ∈ specs, s.2 = none → ∃ e ∈ pin, e.1 = s.1) :
+    Binds decl (calcImports cur pin specs) := by
+  refine ⟨hP, ?_⟩
+  intro i hi
+  simp only [calcImports] at hi
+  obtain ⟨⟨path, al⟩, hs, rfl⟩ := List.mem_map.1 hi
+  cases al with
+  | some a => simp [bound_eq]
+  | none =>
+    simp only
+    cases hf : pin.find? (fun e => e.1 = path) with
+    | some e =>
+      have hmem := List.mem_of_find?_eq_some hf
+      have hq : e.1 = path := by simpa using List.find?_some hf
+      simp only [bound_eq, if_true]
+      rw [hP e hmem, hq]
+    | none =>
+      obtain ⟨e, he, hp⟩ := hAll (path, none) hs rfl
+      have := List.find?_eq_none.1 hf e he
+      simp at this hp
+      exact absurd hp this
+
+/-- `ExtractTypeRef` keeps that: an entry `addNamed` creates is named after the package's declared
+name (the hypothesis: the term carries the names `go/types` reports) -/
+theorem typeRef_binds_alias (decl : Name → Name) (ih : IH) (t : GoType) (hb : Binds decl ih)
+    (hn : NamedBy decl (pkgsOf t)) : Binds decl (extract ensureParamNames ih t).1 :=
+  extract_binds decl ensureParamNames t ih hb hn
+
+/-- **findInterface_binds_alias.** For any embedding tree, signatures and options: after
+`FindInterface` every entry's printed declaration still binds its alias. -/
+theorem findInterface_binds_alias (decl : Name → Name) (o : Opts) (ih : IH) (t : Ty GoType Sig)
+    (hb : Binds decl ih) (ht : TreeNamedBy decl t) : Binds decl (findInterface false o ih t).1 := by
+  unfold findInterface
+  simp only [Bool.not_false, Bool.false_eq_true, if_false]
+  exact nti_binds decl ensureParamNames true o ih t hb ht
+
+/-- **every import it needs is among the active imports UNDER THE ALIAS USED, in the file as
+printed.** Resolving a qualifier against the printed import block (`ImportString()` of
+`GetActive()`, names bound as the Go spec says) gives what `denote` assumed - so
+`rendered_types_denote_same` speaks about the rendered file. -/
+theorem printed_imports_bind_aliases (decl : Name → Name) (o : Opts) (ih : IH) (t : Ty GoType Sig)
+    (hb : Binds decl ih) (ht : TreeNamedBy decl t) (a : Name) :
+    resolveBound decl (findInterface false o ih t).1.active a
+      = resolveAlias (findInterface false o ih t).1.active a :=
+  resolveBound_eq_resolveAlias decl _
+    (fun i hi => (findInterface_binds_alias decl o ih t hb ht).imports i (List.mem_filter.1 hi).1) a
+
+def odd : Name := ['o', 'd', 'd']
+def v2 : Name := ['v', '2']
+def pOdd : Name := ['m', '/', 'o', 'd', 'd', '/', 'v', '2']
+
+/-- declared names: directory `m/odd/v2` holds `package odd`; the others are named after their
+directory -/
+def sampleDecl (p : Name) : Name := if p = pOdd then odd else pathBase p
+
+/-- the classic `v2 "m/odd/v2"` next to a plain import of `m/sib`, and the same package imported
+under its declared name and under a third name (hypotheses of `calcImports_binds_alias` hold;
+what is printed; what it binds) -/
+example :
+    ((calcImports pCur [(pSib, sib), (pOdd, odd)] [(pSib, none), (pOdd, some v2)]).imports.map
+        (fun i => (String.ofList i.importString, i.bound sampleDecl)) =
+      [("\"m/sib\"", sib), ("v2 \"m/odd/v2\"", v2)]) ∧
+    ((calcImports pCur [(pOdd, odd)] [(pOdd, some odd)]).imports.map
+        (fun i => (String.ofList i.importString, i.bound sampleDecl)) = [("odd \"m/odd/v2\"", odd)]) ∧
+    ((calcImports pCur [(pOdd, odd)] [(pOdd, some ['o', 'x'])]).imports.map
+        (fun i => (String.ofList i.importString, i.bound sampleDecl)) = [("ox \"m/odd/v2\"", ['o', 'x'])]) ∧
+    ((calcImports pCur [(pOdd, odd)] [(pOdd, none)]).imports.map
+        (fun i => (String.ofList i.importString, i.bound sampleDecl)) = [("\"m/odd/v2\"", odd)]) := by
+  decide
+
+/-- `Binds` is not a tautology: comparing the explicit name with the DIRECTORY name (an entry that
+keeps alias `v2` but is flagged `aliasIsPackageName` because `v2` is the last path element) prints
+`"m/odd/v2"`, which binds `odd`; the qualifier `v2` of the rendered references then resolves to
+nothing (`undefined: v2`), and next to a plainly imported package that is really called `odd` the
+name `odd` is bound twice. -/
+theorem dirname_comparison_violates :
+    (⟨v2, pOdd, true, true⟩ : ImportDesc).bound sampleDecl ≠ v2 ∧
+    resolveBound sampleDecl [⟨v2, pOdd, true, true⟩] v2 = none ∧
+    resolveAlias [⟨v2, pOdd, true, true⟩] v2 = some pOdd ∧
+    resolveBound sampleDecl [⟨v2, pOdd, true, true⟩, ⟨odd, ['m', '/', 'x', '/', 'o', 'd', 'd'], true, true⟩] odd
+      = none := by
+  decide
 
 end Gencommon
